@@ -61,9 +61,13 @@ pub fn run(ctx: &Ctx) -> Report {
     let mut sec = Section::new(&format!("wild-programs[{}]", ctx.variant), "C02 programs (arbitrary coordinates), same invariant");
     run_generated(&mut sec, ctx.seed ^ 8, ctx.cases(200_000, 3_000_000), ctx.workers, || c02::strategy(gen::ConfigMenu::all_transports(), 5), check, sig);
     rep.sections.push(sec);
+    super::history_section(&mut rep, ctx, ctx.seed ^ 0x68, ctx.cases(100_000, 2_000_000), || c01::strategy(gen::ConfigMenu::all_transports(), 6), check, sig);
     rep
 }
 
-pub fn replay(_section: &str, case: &Value) -> Result<(), String> {
+pub fn replay(section: &str, case: &Value) -> Result<(), String> {
+    if section.starts_with("after-history") {
+        return super::replay_history(case, check);
+    }
     check(&de::<ProgCase>(case)?, &mut CaseInfo::default())
 }
